@@ -360,16 +360,17 @@ def _top_case(case):
     out = []
     import torch
     # non-flat shard rejected
-    for shp in ((2, 3), (1, 1), ()):
-        try:
-            outer(torch.zeros(shp), torch.Size((2, 3)), 0, 6)
-            ok = False
-        except ValueError:
-            ok = True
-        except BaseException:  # noqa
-            ok = False
-        out.append(result(f"{func}/non-flat-shard-rejected[{case}/{shp}]", func, "discharged" if ok else "violated", backend="concrete-execution", case=case,
-                          text=f"shard of shape {shp} -> ValueError", replay=dict(kind="recovery", order=2)))
+    for shp in ((2, 3), (1, 1), (), (0, 1), (1, 0), (2, 0), (1, 0, 1)):
+        for (s_, e_) in ((0, 6), (0, 0), (3, 3), (6, 6)):
+            try:
+                outer(torch.zeros(shp), torch.Size((2, 3)), s_, e_)
+                ok = False
+            except ValueError:
+                ok = True
+            except BaseException:  # noqa
+                ok = False
+            out.append(result(f"{func}/non-flat-shard-rejected[{case}/{shp}/{s_}-{e_}]", func, "discharged" if ok else "violated", backend="concrete-execution", case=case,
+                              text=f"shard of shape {shp}, range [{s_},{e_}) (also an EMPTY range) -> ValueError", replay=dict(kind="nonflat", shape=list(shp), s=s_, e=e_)))
     # the wrapper calls the nested function with dimension 0 on the whole shard and [start, end): real wrapper, real nested function,
     # flat proxy: the first level is executed natively with the contract stub injected through the closure is not possible from
     # outside, so the wrapper is checked on concrete tensors against the contract evaluated at run time (all small shapes).
@@ -613,6 +614,15 @@ def replay(r):
 def replay_file(doc):
     rp = doc.get("replay_input") or {}
     m = (doc.get("verifier_output") or {}).get("model") or {}
+    if rp.get("kind") == "nonflat":
+        import torch
+        for which in ("fsdp", "hsdp"):
+            try:
+                _outer(which)(torch.zeros(tuple(rp["shape"])), torch.Size((2, 3)), rp["s"], rp["e"])
+                return True, f"{which}: non-flat shard of shape {rp['shape']} with range [{rp['s']},{rp['e']}) was not rejected"
+            except ValueError:
+                pass
+        return False, "non-flat shards are rejected"
     if rp.get("kind") == "native_recovery":
         bad = native_recovery_check(rp["which"], tuple(rp["shape"]), rp["s"], rp["e"])
         return bool(bad), f"{rp}: {bad}"
